@@ -347,7 +347,9 @@ func genTitle(t *rapid.T, w *world) string {
 	return rapid.OneOf(rapid.StringMatching(`[a-z]{1,12}`), rapid.StringMatching(`[A-Z]{1,12}`), rapid.StringMatching(`[A-Za-z]{1,12}`),
 		rapid.SampledFrom([]string{"NOTICE", "Notice", "notice", "SWELL", "swell", "v", "VV", "Hint"}),
 		// titles with ASCII punctuation that the marshalled forms have to escape
-		rapid.StringMatching(`[A-Za-z]{1,4}["\\'./_:-][A-Za-z"\\]{0,4}`)).Draw(t, "title")
+		rapid.StringMatching(`[A-Za-z]{1,4}["\\'./_:-][A-Za-z"\\]{0,4}`),
+		// titles padded with a blank (a cheap way to get fixed-width tags)
+		rapid.StringMatching(`( [A-Za-z]{1,5}|[A-Za-z]{1,5} | [A-Za-z]{1,4} |[A-Za-z]{1,3} [A-Za-z]{1,3})`)).Draw(t, "title")
 }
 
 func recase(t *rapid.T, s string) string {
